@@ -787,3 +787,54 @@ func SilentStall(d *fw.Driver, res *fw.Result, seed int64) error {
 	}
 	return nil
 }
+
+// Unencodable: a handler returns a value the codec refuses (0/0).  The server cannot put that value into a
+// response, but the request still has to be answered: the caller gets an error, on either transport, and
+// the other calls of the connection are unaffected.
+func Unencodable(res *fw.Result, seed int64) error {
+	e, err := scen.NewEnv(seed+515, 0)
+	if err != nil {
+		return err
+	}
+	defer e.Close()
+	ctx, cancel := context.WithCancel(context.Background())
+	defer cancel()
+	for _, transport := range []string{"ws", "http"} {
+		var cl *scen.CL
+		var closer jsonrpc.ClientCloser
+		if transport == "ws" {
+			cl, closer, err = e.Client(ctx, jsonrpc.WithNoReconnect())
+		} else {
+			cl = &scen.CL{}
+			closer, err = jsonrpc.NewMergeClient(ctx, e.HTTPURL(), "SH", []interface{}{cl}, nil)
+		}
+		if err != nil {
+			return err
+		}
+		sig := "handler result the codec refuses transport=" + transport
+		c := map[string]interface{}{"scenario": "unencodable-result", "transport": transport}
+		if v, err := cl.Div(1, 2); err != nil || v != 0.5 {
+			closer()
+			return fmt.Errorf("unencodable: control call failed: %v %v", v, err)
+		}
+		for _, args := range [][2]float64{{0, 0}, {1, 0}, {-1, 0}} {
+			done := make(chan error, 1)
+			go func() { _, err := cl.Div(args[0], args[1]); done <- err }()
+			select {
+			case err := <-done:
+				if err == nil {
+					res.Add(fw.Finding{Kind: "monitor", Signature: sig + " no error", Detail: fmt.Sprintf("Div(%v,%v) returned no error although its result cannot be encoded", args[0], args[1]), Case: c})
+				}
+			case <-time.After(3 * time.Second):
+				res.Add(fw.Finding{Kind: "monitor", Signature: sig + " call never returns", Detail: fmt.Sprintf("Div(%v,%v) had not returned after 3s on a healthy connection: the server could not encode the result and sent nothing at all", args[0], args[1]), Case: c})
+			}
+			res.Count("unencodable." + transport)
+			res.Eval(true, []interface{}{"unencodable", transport, args[0], args[1]})
+		}
+		if v, err := cl.Div(3, 4); err != nil || v != 0.75 {
+			res.Add(fw.Finding{Kind: "monitor", Signature: sig + " later call fails", Detail: fmt.Sprintf("a later call on the same client failed: %v %v", v, err), Case: c})
+		}
+		scen.WithTimeout(3*time.Second, closer)
+	}
+	return nil
+}
